@@ -8,6 +8,7 @@ The inner environment is generic (uninterpreted), so it may itself be any wrappe
 """
 from __future__ import annotations
 
+import os
 import itertools
 
 import equinox as eqx
@@ -170,6 +171,7 @@ def unit_passthrough(name):
         }
         if cls != "TimeLimit":
             methods["truncate"] = (lambda e, s_, ns_, a_, kk: e.truncate(s_), lambda e, s_, ns_, a_, kk: inner(e).truncate(s_.env_state))
+        S.default_replay = _pass_battery(name, [m for m in methods])      # also the native witness if a method cannot be extracted on the symbolic stack
         for m, (real_f, spec_f) in methods.items():
             fn = f"{fnp}.{m}"
             S.under_contract(fn)
@@ -218,6 +220,25 @@ def unit_passthrough(name):
             S.fact(f"{name}/advertised-space", (E0.action_space is inn.action_space) and (E0.observation_space is inn.observation_space), function=f"lerax.wrapper:{cls}",
                    what="the space given to the constructor is advertised, the other one passes through")
     return unit
+
+
+def _pass_battery(name, methods):
+    """every component function of the wrapper natively on concrete members of its spaces, against the inner function through the declared maps; the real wrapper RAISING on such
+    inputs counts as a failing input too (it cannot forward a member of the space it declares)"""
+    def replay(model):
+        for m in methods:
+            try:
+                r = _pass_replay(name, m)(model)
+            except Exception as e:
+                import traceback
+                repo = os.environ.get("LVC_REPO", "/repo").rstrip("/") + "/"
+                if any(fs.filename.startswith(repo) for fs in traceback.extract_tb(e.__traceback__)):
+                    return dict(reproduced=True, route="R1 (real wrapper on concrete members of its declared spaces)", inputs=dict(wrapper=name, method=m), observed=dict(raised=f"{type(e).__name__}: {e}"[:300]))
+                raise
+            if r.get("reproduced"):
+                return r
+        return dict(reproduced=False, note=f"{name}: {len(methods)} component functions agree natively with the inner functions through the declared maps")
+    return replay
 
 
 def _pass_replay(name, m):
